@@ -6,7 +6,7 @@ raised inside a C_* call (all surface as `Died`), a UBSan diagnostic of category
 a return value that is not a CKR_* constant, a reproduced hang.  Two workloads: (a) hostile API sequences over all 68
 entry points on a deep state, (b) structure-aware mutation of every file the library reads, each followed by a fixed
 recovery probe in a fresh process.  One executor process per sequence / per mutated file."""
-import sys, os, json, random, shutil, struct, sqlite3, time, re
+import sys, os, json, random, shutil, struct, sqlite3, time, re, select
 sys.path.insert(0, os.path.join(os.path.dirname(os.path.abspath(__file__)), '..', 'vlib'))
 from harness import main, Part, pmap, SAN_ENV, VERIF
 from p11client import Exec, Died, Hang, mkconf
@@ -17,7 +17,7 @@ import fuzzgen as FG
 # the sanitizer keeps the fatal signals (the interposer's own handler would report a bare 'SIGSEGV' without a stack)
 C17_ENV = dict(SAN_ENV, ASAN_OPTIONS=SAN_ENV['ASAN_OPTIONS'] + ':handle_segv=2:handle_sigbus=2:handle_sigfpe=2:handle_sigill=2')
 SO_PIN = [b'so-pin-tok0', b'so-pin-tok1']; USER_PIN = [b'user-pin-0', b'user-pin-1']
-TIMEOUT = 90
+TIMEOUT = 40
 
 # ------------------------------------------------------------------------------------------------ plumbing
 def new_exec(env, d, backend=None, conf=None):
@@ -36,9 +36,17 @@ def ubsan_class(msg):
     return None
 
 SKIP_FRAMES = ('__asan', '__interceptor', '__sanitizer', '__ubsan', 'operator', 'std::', '__GI_', '_IO_', 'malloc', 'free', 'mem', 'str', '__pthread_kill', 'pthread_kill', 'raise', 'abort', '__assert', '__cxa', '__gnu_cxx', '_Unwind', 'gsignal', '__libc')
+def full_stderr(e):
+    p = getattr(e, 'stderr_path', None)
+    try:
+        with open(p, 'rb') as f: return f.read()[-400000:].decode('latin-1')
+    except (OSError, TypeError): return e.stderr_tail or ''
+def report_head(e, n=3000):
+    """the informative part of the sanitizer report (header + stack), not the shadow-memory dump at its end"""
+    t = full_stderr(e); i = t.rfind('ERROR: AddressSanitizer'); return t[max(0, i - 10):i + n] if i >= 0 else t[-n:]
 def death_sig(e):
     """`<death kind>@<first library frame or assert location>`"""
-    note = e.note or {}; died = str(note.get('died', '')); t = e.stderr_tail or ''
+    note = e.note or {}; died = str(note.get('died', '')); t = full_stderr(e); i = t.rfind('ERROR: AddressSanitizer'); t = t[i:] if i >= 0 else t[-6000:]
     if died.startswith('assert:'): return 'assert@' + died[7:].split('/')[-1]
     m = re.search(r'ERROR: AddressSanitizer: ([\w-]+)', t)
     kind = 'asan:' + m.group(1) if m else e.kind()
@@ -51,6 +59,10 @@ def death_sig(e):
     if where == '?' and fallback: where = fallback
     return f'{kind}@{where}'
 
+def cpu_ticks(pid):
+    try: f = open('/proc/%d/stat' % pid).read().rsplit(')', 1)[1].split(); return int(f[11]) + int(f[12])
+    except (OSError, IndexError, ValueError): return 0
+
 class Monitor:
     """per-executor oracle: CK_RV validity, UBSan diagnostics attributed to the call that produced them"""
     def __init__(s, x, ck, part): s.x = x; s.ck = ck; s.part = part; s.pos = 0; s.reqs = []
@@ -59,9 +71,30 @@ class Monitor:
             with open(s.x.stderr_path, 'rb') as f: f.seek(s.pos); t = f.read(); s.pos += len(t)
         except OSError: return []
         return [(m.group(3), m.group(1).split('/src/')[-1] + ':' + m.group(2)) for m in re.finditer(r'^(\S+?):(\d+):\d+: runtime error: (.*)$', t.decode('latin-1'), re.M)]
+    def raw(s, req):
+        """Exec.raw with a watchdog that looks before it kills: a process that is still burning CPU is computing (huge operands),
+        one that is idle is stuck; only the latter is the hang the property is about"""
+        x = s.x; x.n += 1; req = dict(req); req.setdefault('id', x.n); x.calls += 1
+        def died(note=None):
+            rc = x.p.wait(); e = Died(note, rc, x.stderr_tail(), req.get('fn')); e.stderr_path = x.stderr_path; return e
+        try: x.p.stdin.write((json.dumps(req) + '\n').encode())
+        except (BrokenPipeError, OSError): raise died()
+        fd = x.p.stdout.fileno(); t0 = time.time()
+        while b'\n' not in x.buf:
+            rd, _, _ = select.select([fd], [], [], 2.0)
+            if rd:
+                chunk = os.read(fd, 1 << 20)
+                if not chunk: raise died()
+                x.buf += chunk; continue
+            if time.time() - t0 > TIMEOUT:
+                busy = cpu_ticks(x.p.pid); time.sleep(0.5); busy = cpu_ticks(x.p.pid) - busy > 5
+                x.kill(); raise Hang('busy' if busy else 'idle')
+        line, x.buf = x.buf.split(b'\n', 1); r = json.loads(line)
+        if 'died' in r: raise died(r)
+        return r
     def call(s, req, cls):
         """send one request; returns the reply.  Raises Died/Hang.  Records violations that do not kill the process."""
-        s.reqs.append(req); r = s.x.raw(req); rv = r.get('rv', -1)
+        s.reqs.append(req); r = s.raw(req); rv = r.get('rv', -1)
         if 'error' in r and rv == -1: s.part.inconc('harness: executor rejected a request: %s %s' % (r['error'], json.dumps(req)[:300])); r['rvname'] = 'HARNESS_ERROR'; return r
         r['rvname'] = s.ck.rv(rv)
         if r['rvname'].startswith('CKR_?'): s.part.violation(f"{req['fn']}|{cls}|invalid-rv", 'a return value that is not a CKR_* constant', {'rv': rv, 'request': clip(req)})
@@ -188,9 +221,9 @@ def canonical_death(env, e, fn, tags, prefix, base, edits, untagged='well-formed
         for tag, field, val in [(None, None, None)] + (sorted(edits, key=lambda t: t[0]) if len(edits) > 1 else []):
             d = os.path.join(env['scratch'], 'abl-%d-%d' % (os.getpid(), random.getrandbits(40))); x = None
             try:
-                x = new_exec(env, d, conf=clone_golden(env, d))
-                for q in prefix: x.raw(q)
-                x.raw(FG.Gen.apply(base, [(tag, field, val)] if tag else []))
+                x = new_exec(env, d, conf=clone_golden(env, d)); m2 = Monitor(x, env['ck'], Part())
+                for q in prefix: m2.raw(q)
+                m2.raw(FG.Gen.apply(base, [(tag, field, val)] if tag else []))
             except Died as e2:
                 if death_sig(e2) == sig: tags = [tag] if tag else []; break
             except Hang: pass
@@ -227,11 +260,12 @@ def run_sequence(env, seed, part, keep=None):
             key, sig = canonical_death(env, e, fn, cur[1], mon.reqs[:-1], cur[2], cur[3], 'use-of-hostile-object' if (uses & hobjs) else ('well-formed-after-hostile' if hostile else 'well-formed'))
         part.violation(key, f'the library terminated the host process inside {fn} ({e.kind()})',
                        {'mode': 'api', 'seed': seed, 'cfg': env['cfg'], 'backend': env['backend'], 'ncalls': env['ncalls'], 'dying_request': clip(mon.reqs[-1] if mon.reqs else None),
-                        'tags': cur[1], 'note': e.note, 'stderr_tail': (e.stderr_tail or '')[-2500:], 'trace_tail': [clip(q, 80) for q in mon.reqs[-8:]]})
+                        'tags': cur[1], 'note': e.note, 'stderr_tail': report_head(e), 'trace_tail': [clip(q, 80) for q in mon.reqs[-8:]]})
         part.count('deaths')
-    except Hang:
+    except Hang as hg:
         part.count('hangs'); x.kill()
-        if keep is None and rerun_hangs(env, seed): part.violation(f'{cur[0]}|{"+".join(cur[1]) or "well-formed"}|hang', 'a call did not return within %d s (reproduced)' % TIMEOUT, {'mode': 'api', 'seed': seed, 'cfg': env['cfg'], 'backend': env['backend'], 'ncalls': env['ncalls'], 'request': clip(mon.reqs[-1])})
+        if str(hg) == 'busy': part.observe('long computation (CPU-busy past the %d s watchdog; not a hang)' % TIMEOUT, {'fn': cur[0], 'tags': cur[1], 'seed': seed}); part.count('busy_timeouts')
+        elif keep is None and rerun_hangs(env, seed): part.violation(f'{cur[0]}|{"+".join(cur[1]) or "well-formed"}|hang', 'a call did not return within %d s (reproduced)' % TIMEOUT, {'mode': 'api', 'seed': seed, 'cfg': env['cfg'], 'backend': env['backend'], 'ncalls': env['ncalls'], 'request': clip(mon.reqs[-1])})
         else: part.inconc('hang not reproduced, seed %d' % seed)
     finally:
         x.kill()
@@ -534,9 +568,9 @@ def run_cells(env, family, cells, part, solo=False):
                 if len(part.samples) < 1: part.samples.append({'mode': 'grid', 'family': family, 'tag': tag, 'detail': detail, 'requests': [clip(q, 64) for q in mon.reqs[n0:n0 + 6]]})
         except Died as e:
             sig = death_sig(e); fn = e.fn; x.kill()
-            if tag == 'setup': part.violation(f'{fn}|well-formed|{sig}', f'the library terminated the host process inside {fn} during the well-formed prologue', {'mode': 'grid', 'family': family, 'stderr_tail': (e.stderr_tail or '')[-2500:]}); i += 1; continue
+            if tag == 'setup': part.violation(f'{fn}|well-formed|{sig}', f'the library terminated the host process inside {fn} during the well-formed prologue', {'mode': 'grid', 'family': family, 'stderr_tail': report_head(e)}); i += 1; continue
             tag = cur.tag; wit = {'mode': 'grid', 'family': family, 'cell': detail, 'tag': tag, 'seed': env['seed'], 'cfg': env['cfg'], 'backend': env['backend'], 'dying_request': clip(mon.reqs[-1]), 'note': e.note,
-                   'stderr_tail': (e.stderr_tail or '')[-2500:], 'trace_tail': [clip(q, 80) for q in mon.reqs[-6:]]}
+                   'stderr_tail': report_head(e), 'trace_tail': [clip(q, 80) for q in mon.reqs[-6:]]}
             if solo: return [(fn, sig, wit)]
             # the canonical key comes from re-running the cell ALONE in a fresh executor (deterministic heap, no residue of earlier cells)
             alone = run_cells(env, family, [cells[i]], Part(), solo=True)
@@ -544,8 +578,11 @@ def run_cells(env, family, cells, part, solo=False):
             else: cls = 'sequence-dependent:' + tag
             part.violation(f'{fn}|{cls}|{sig}', f'the library terminated the host process inside {fn} ({sig.split("@")[0]})', wit)
             part.count('deaths'); part.case((family, tag, detail.split(' ')[0])); part.count('grid_cells'); i += 1
-        except Hang:
-            x.kill(); part.count('hangs'); part.violation(f'{(mon.reqs[-1] or {}).get("fn")}|{tag}|hang', 'a call did not return within %d s' % TIMEOUT, {'mode': 'grid', 'family': family, 'cell': detail, 'request': clip(mon.reqs[-1])}); i += 1
+        except Hang as hg:
+            x.kill(); part.count('hangs')
+            if str(hg) == 'busy': part.observe('long computation (CPU-busy past the %d s watchdog; not a hang)' % TIMEOUT, {'fn': (mon.reqs[-1] or {}).get('fn'), 'cell': detail}); part.count('busy_timeouts'); i += 1; continue
+            if solo: return [((mon.reqs[-1] or {}).get('fn'), 'hang', {'mode': 'grid', 'family': family, 'cell': detail, 'request': clip(mon.reqs[-1])})]
+            part.violation(f'{(mon.reqs[-1] or {}).get("fn")}|{cur.tag if cur else tag}|hang', 'a call did not return within %d s (process idle)' % TIMEOUT, {'mode': 'grid', 'family': family, 'cell': detail, 'request': clip(mon.reqs[-1])}); i += 1
         finally: x.kill()
     shutil.rmtree(d, ignore_errors=True)
     return []
@@ -673,7 +710,7 @@ def effect_class(ck, orig, new):
 
 def coarse_effect(eff):
     """key classes: the file still parses but its attribute set / kinds / values differ ('altered'), it no longer parses ('malformed'), it is empty, or nothing the library reads changed"""
-    return eff if eff in ('empty', 'malformed') else 'unchanged' if eff in ('unchanged', 'generation-only') else 'altered'
+    return 'empty' if eff == 'empty' else 'unchanged' if eff in ('unchanged', 'generation-only') else 'damaged'
 
 def token_dirs(d): return sorted(os.path.join(d, 'tokens', t) for t in os.listdir(os.path.join(d, 'tokens')))
 def read_label(tokdir, backend):
@@ -796,7 +833,7 @@ def apply_directed(env, t0, item):
         cur.execute(f'delete from {tab} where object_id=? and type=?', (oi, at)); dst, val = ('attribute_boolean', 1) if tab == 'attribute_binary' else ('attribute_binary', b'abc')
         cur.execute(f'insert into {dst} (value, type, object_id) values (?,?,?)', (val, at, oi))
     con.commit(); con.close()
-    return 'object:altered', {'object_id': oi, 'attribute': env['ck'].ATTR.get(at, hex(at)), 'operator': 'directed:' + op}
+    return 'object:damaged', {'object_id': oi, 'attribute': env['ck'].ATTR.get(at, hex(at)), 'operator': 'directed:' + op}
 
 def file_case(env, idx, part):
     item = idx if isinstance(idx, tuple) else None; idx = ('d%d-%x-%s' % idx[1:]) if item else idx
@@ -815,7 +852,7 @@ def file_case(env, idx, part):
                 if k == 3:   # the same serial on both tokens
                     ob = open(os.path.join(other, 'token.object'), 'rb').read(); ser = [ob[s0 + 24:e0] for (s0, e0, t, kk) in FG.walk_objfile(ob)[1] if t == FG.CKA_OS_TOKENSERIAL][0]
                 else: ser = [b'%016x' % len(toks), b'%016x' % ((1 << 31) + len(toks)), r.choice([b'', b'zz', b'0' * 15 + b'g', b'f' * 16, b'1' * 64])][k]   # the free slot's id is the number of tokens
-                nb = FG.set_token_serial(b, ser); open(os.path.join(tok, 'token.object'), 'wb').write(nb if nb else b); cls = 'token.object:serial-' + ['collides-free-slot', 'collides-free-slot-bit31', 'odd', 'collides-other-token'][k]
+                nb = FG.set_token_serial(b, ser); open(os.path.join(tok, 'token.object'), 'wb').write(nb if nb else b); cls = 'token.object:serial-' + ['collision', 'collision', 'odd', 'collision'][k]; info['operator'] = ['collides-free-slot', 'collides-free-slot-bit31', 'odd', 'collides-other-token'][k]
             else:
                 objs = sorted((n for n in os.listdir(tok) if n.endswith('.object') and n != 'token.object'), key=lambda n: os.stat(os.path.join(tok, n)).st_mtime_ns)   # creation order = order of kinds
                 if c < 0.45: name = 'token.object'; kind = 'token.object'
@@ -827,7 +864,7 @@ def file_case(env, idx, part):
                 if len(data) <= 2048: info['hex'] = data.hex()
         else:
             tok = r.choice(toks) if r.random() < 0.3 else t0; op = mutate_db(r, os.path.join(tok, 'sqlite3.db')); info['operator'] = op
-            cls = 'db:raw' if op.startswith('raw:') else 'db:schema' if op == 'sql:schema' else 'db:unchanged' if op == 'sql:noop' else 'object:altered'
+            cls = 'db:raw' if op.startswith('raw:') else 'db:schema' if op == 'sql:schema' else 'db:unchanged' if op == 'sql:noop' else 'object:damaged'
     except Exception as e:
         part.inconc('mutation failed: %r' % (e,)); shutil.rmtree(d, ignore_errors=True); return
     cls = 'file/' + cls
@@ -835,10 +872,12 @@ def file_case(env, idx, part):
     try: used = recovery_probe(mon, env, cls)
     except Died as e:
         part.violation(f'{e.fn}|{cls}|{death_sig(e)}', f'after a mutation of the stored files ({cls}) the library terminated the host process inside {e.fn} ({e.kind()})',
-                       {'mode': 'file', 'seed': env['seed'], 'index': item or idx, 'cfg': env['cfg'], 'backend': be, 'mutation': cls, 'info': info, 'note': e.note, 'stderr_tail': (e.stderr_tail or '')[-2500:], 'trace_tail': [clip(q, 80) for q in mon.reqs[-6:]]})
+                       {'mode': 'file', 'seed': env['seed'], 'index': item or idx, 'cfg': env['cfg'], 'backend': be, 'mutation': cls, 'info': info, 'note': e.note, 'stderr_tail': report_head(e), 'trace_tail': [clip(q, 80) for q in mon.reqs[-6:]]})
         part.count('deaths')
-    except Hang:
-        part.count('hangs'); part.violation(f'{(mon.reqs[-1] or {}).get("fn")}|{cls}|hang', 'a probe call did not return within %d s' % TIMEOUT, {'mode': 'file', 'seed': env['seed'], 'index': idx, 'cfg': env['cfg'], 'backend': be, 'mutation': cls, 'info': info})
+    except Hang as hg:
+        part.count('hangs')
+        if str(hg) == 'busy': part.observe('long computation (CPU-busy past the %d s watchdog; not a hang)' % TIMEOUT, {'fn': (mon.reqs[-1] or {}).get('fn'), 'mutation': cls, 'index': str(item or idx)}); part.count('busy_timeouts')
+        else: part.violation(f'{(mon.reqs[-1] or {}).get("fn")}|{cls}|hang', 'a probe call did not return within %d s (process idle)' % TIMEOUT, {'mode': 'file', 'seed': env['seed'], 'index': idx, 'cfg': env['cfg'], 'backend': be, 'mutation': cls, 'info': info})
     finally: x.kill()
     part.case((cls, info.get('operator')), nontrivial=True); part.count('file_cases'); part.count('file_probe_calls', len(mon.reqs)); part.count('file_keys_used', used); part.count('mut:' + cls.split(':')[0])
     if len(part.samples) < 2 and not item and idx % 7 == 0: part.samples.append({'mode': 'file', 'index': idx, 'backend': be, 'mutation': cls, 'info': {k: v for k, v in info.items() if k != 'hex'}, 'probe_calls': len(mon.reqs)})
@@ -864,12 +903,14 @@ def mutate_dir(r, d, toks, be):
 def worker(job):
     part = Part(); env = dict(job['env']); env['ck'] = CK(env['hdr']); env['scratch'] = os.path.join(env['scratch'], 'w%d' % os.getpid()); os.makedirs(env['scratch'], exist_ok=True)
     for item in job['items']:
+        t0 = time.time()
         try:
             if job['mode'] == 'grid':
                 fam, lo, hi = item; cells = grid_cells(fam, env['ck'], env['seed'], env['scale'])[lo:hi]; run_cells(env, fam, cells, part)
             elif job['mode'] == 'api': run_sequence(env, item, part)
             else: file_case(env, item, part)
         except (Died, Hang) as e: part.inconc('executor lost outside a monitored call: %r' % (e,))
+        part.count('worker_s:' + (job['mode'] if job['mode'] != 'grid' else 'grid:' + item[0]), round(time.time() - t0, 2))
     return part
 
 def run(ctx):
